@@ -8,10 +8,11 @@ Open Scope N_scope.
 
 Lemma id_eqb_eq : forall a b, id_eqb a b = true <-> a = b.
 Proof.
-  intros [sa pa] [sb pb]. unfold id_eqb. simpl. split.
-  - intros H. apply andb_true_iff in H. destruct H as [H1 H2].
-    apply N.eqb_eq in H1. apply N.eqb_eq in H2. subst. reflexivity.
-  - intros H. injection H as H1 H2. subst. rewrite !N.eqb_refl. reflexivity.
+  intros [sa pa na] [sb pb nb]. unfold id_eqb. simpl. split.
+  - intros H. apply andb_true_iff in H. destruct H as [H H3].
+    apply andb_true_iff in H. destruct H as [H1 H2].
+    apply N.eqb_eq in H1. apply N.eqb_eq in H2. apply N.eqb_eq in H3. subst. reflexivity.
+  - intros H. injection H as H1 H2 H3. subst. rewrite !N.eqb_refl. reflexivity.
 Qed.
 
 Lemma id_eqb_refl : forall a, id_eqb a a = true.
@@ -198,7 +199,7 @@ Proof. intros s H. unfold wf, regen in *. simpl. apply store_nodup. auto. Qed.
 
 Lemma step_wf : forall s e, wf s -> wf (step s e).
 Proof.
-  intros s e H. destruct e as [i k sq lt | i lo hi l | i l | | | | |]; simpl.
+  intros s e H. destruct e as [i k sq lt | i lo hi l | i l | | | | | |]; simpl.
   - unfold recv_lsp.
     destruct (id_eqb k (local_id s) && match lookup k (db s) with None => true | Some e => seq e <? sq end).
     + exact H.
@@ -214,6 +215,7 @@ Proof.
   - apply regen_wf. exact H.
   - exact H.
   - unfold wf, clear_all_ssn in *. simpl. rewrite map_keys; auto.
+  - exact H.
 Qed.
 
 Lemma run_wf : forall evs s, wf s -> wf (run s evs).
@@ -226,7 +228,7 @@ Proof. intros ifaces o. unfold init. apply regen_wf. apply regen_wf. unfold wf. 
 
 Lemma step_own : forall s e, own (step s e) = own s /\ ifs (step s e) = ifs s.
 Proof.
-  intros s e. destruct e as [i k sq lt | i lo hi l | i l | | | | |]; simpl; auto.
+  intros s e. destruct e as [i k sq lt | i lo hi l | i l | | | | | |]; simpl; auto.
   - unfold recv_lsp.
     destruct (id_eqb k (local_id s) && match lookup k (db s) with None => true | Some e => seq e <? sq end); simpl; auto.
     destruct (lookup k (db s)) as [e |]; simpl; auto.
@@ -394,7 +396,7 @@ Theorem kept_until_aged_out : forall s ev k e, wf s -> lookup k (db s) = Some e 
   | _ => exists e', lookup k (db (step s ev)) = Some e' /\ same_copy e e'
   end.
 Proof.
-  intros s ev k e Hwf Hl. destruct ev as [i k' sq lt | i lo hi l | i l | | | | |]; simpl.
+  intros s ev k e Hwf Hl. destruct ev as [i k' sq lt | i lo hi l | i l | | | | | |]; simpl.
   - destruct (recv_lsp_highest s i k' sq lt) as (Hother & Hnew & Hold).
     destruct (id_eqb k' k) eqn:E.
     + apply id_eqb_eq in E. subst k'.
@@ -417,6 +419,7 @@ Proof.
   - exists e. unfold same_copy. auto.
   - unfold clear_all_ssn. simpl. rewrite lookup_map; auto. rewrite Hl. simpl.
     eexists. split; [reflexivity |]. unfold same_copy. auto.
+  - exists e. unfold same_copy. auto.
 Qed.
 
 (* over any history without aging and regeneration, the copy in the database carries the highest
@@ -429,7 +432,7 @@ Proof.
   - exists e. auto.
   - unfold quiet in Hq. simpl in Hq. apply andb_true_iff in Hq. destruct Hq as [Hqe Hqr].
     assert (Hstep : exists e1, lookup k (db (step s ev)) = Some e1 /\ seq e1 = track_recv k (seq e) ev).
-    { destruct ev as [i k' sq lt | i lo hi l | i l | | | | |]; try discriminate.
+    { destruct ev as [i k' sq lt | i lo hi l | i l | | | | | |]; try discriminate.
       - simpl. destruct (recv_lsp_highest s i k' sq lt) as (Hother & Hnew & Hold).
         destruct (id_eqb k' k) eqn:E.
         + apply id_eqb_eq in E. subst k'.
@@ -443,7 +446,8 @@ Proof.
         exists e1. auto.
       - exists e. auto.
       - pose proof (kept_until_aged_out s SendPSNPs k e Hwf Hl) as (e1 & H1 & Hs & _).
-        exists e1. auto. }
+        exists e1. auto.
+      - exists e. auto. }
     destruct Hstep as (e1 & H1 & Hs1).
     assert (Hne1 : k <> local_id (step s ev)) by (rewrite step_local_id; exact Hne).
     destruct (IH (step s ev) k e1 (step_wf s ev Hwf) Hqr Hne1 H1) as (e2 & H2 & Hs2).
@@ -702,7 +706,7 @@ Qed.
 
 Lemma step_db_ok : forall s e, db_ok s -> db_ok (step s e).
 Proof.
-  intros s e Hok. destruct e as [i k sq lt | i lo hi l | i l | | | | |]; simpl.
+  intros s e Hok. destruct e as [i k sq lt | i lo hi l | i l | | | | | |]; simpl.
   - unfold recv_lsp.
     destruct (id_eqb k (local_id s) && match lookup k (db s) with None => true | Some e => seq e <? sq end).
     + intros x e Hin. apply (flags_ok_ifs s); [reflexivity |]. eapply Hok; eauto.
@@ -737,6 +741,7 @@ Proof.
   - intros x e Hin. simpl in Hin. apply in_map_iff in Hin. destruct Hin as ([k0 e0] & Hf & Hin0).
     simpl in Hf. injection Hf as Hk He. subst x e. destruct (Hok k0 e0 Hin0) as [G1 G2].
     split; simpl; auto.
+  - auto.
 Qed.
 
 Theorem flags_invariant : forall ifaces o evs k e,
@@ -812,7 +817,7 @@ Proof. intros s (e & He & Hl). exists e. split; auto. Qed.
 Lemma step_fresh : forall s ev, wf s -> fresh s -> ev <> Tick -> fresh (step s ev).
 Proof.
   intros s ev Hwf Hf Hnt.
-  destruct ev as [i k sq lt | i lo hi l | i l | | | | |]; try contradiction.
+  destruct ev as [i k sq lt | i lo hi l | i l | | | | | |]; try contradiction.
   - destruct Hf as (e & He & Hl). unfold fresh. rewrite (step_local_id s (RecvLSP i k sq lt)).
     simpl. destruct (recv_lsp_highest s i k sq lt) as (Hother & Hnew & Hold).
     destruct (id_eqb k (local_id s)) eqn:E.
@@ -836,6 +841,7 @@ Proof.
   - destruct Hf as (e & He & Hl). unfold fresh. rewrite (step_local_id s SendPSNPs).
     destruct (kept_until_aged_out s SendPSNPs _ e Hwf He) as (e' & He' & _ & Hl').
     exists e'. split; auto. lia.
+  - exact Hf.
 Qed.
 
 Lemma serviced_cons : forall ev r, ev <> Tick -> serviced (ev :: r) = serviced r.
@@ -866,7 +872,7 @@ Qed.
 
 Theorem refresh_before_expiry : forall ifaces o evs,
   serviced evs = true ->
-  exists e, lookup (mkId o 0) (db (run (init ifaces o) evs)) = Some e /\ 299 <= life e.
+  exists e, lookup (mkId o 0 0) (db (run (init ifaces o) evs)) = Some e /\ 299 <= life e.
 Proof.
   intros ifaces o evs Hs.
   assert (Hf : fresh (run (init ifaces o) evs)).
@@ -909,7 +915,7 @@ Lemma step_dominated : forall s ev m, wf s -> counter s < last_seq -> dominated 
   dominated (step s ev) (track_recv (local_id s) m ev).
 Proof.
   intros s ev m Hwf Hc [H1 H2].
-  destruct ev as [i k sq lt | i lo hi l | i l | | | | |]; simpl.
+  destruct ev as [i k sq lt | i lo hi l | i l | | | | | |]; simpl.
   - destruct (recv_lsp_highest s i k sq lt) as (Hother & Hnew & Hold).
     destruct (id_eqb k (local_id s)) eqn:E.
     + apply id_eqb_eq in E. subst k.
@@ -1027,6 +1033,7 @@ Proof.
     rewrite lookup_map in He0; auto.
     destruct (lookup (local_id s) (db s)) as [e |] eqn:He; [| discriminate].
     injection He0 as He0. subst e0. simpl. auto.
+  - split; auto.
 Qed.
 
 Lemma run_dominated : forall evs s m, wf s -> nowrap_from s evs -> dominated s m ->
@@ -1046,14 +1053,14 @@ Qed.
 Theorem own_seq_dominates : forall ifaces o evs,
   nowrap_from (init ifaces o) evs ->
   let s := run (init ifaces o) evs in
-  let m := max_recv (mkId o 0) evs 0 in
+  let m := max_recv (mkId o 0 0) evs 0 in
   m <= counter s /\
-  (exists e, lookup (mkId o 0) (db (step s Regen)) = Some e /\ seq e = counter s + 1 /\ m < seq e) /\
+  (exists e, lookup (mkId o 0 0) (db (step s Regen)) = Some e /\ seq e = counter s + 1 /\ m < seq e) /\
   (pending s = true ->
-   exists e, lookup (mkId o 0) (db (step s Service)) = Some e /\ seq e = counter s + 1 /\ m < seq e).
+   exists e, lookup (mkId o 0 0) (db (step s Service)) = Some e /\ seq e = counter s + 1 /\ m < seq e).
 Proof.
   intros ifaces o evs Hnw s m.
-  assert (Hid0 : local_id (init ifaces o) = mkId o 0) by reflexivity.
+  assert (Hid0 : local_id (init ifaces o) = mkId o 0 0) by reflexivity.
   assert (Hd0 : dominated (init ifaces o) 0).
   { split; [lia |]. intros e He. unfold init in *.
     set (s0 := regen (mkS ifaces o [] 0 false)) in *.
@@ -1063,7 +1070,7 @@ Proof.
     unfold regen. simpl. lia. }
   destruct (run_dominated evs (init ifaces o) 0 (init_wf ifaces o) Hnw Hd0) as [[H1 H2] Hc].
   rewrite Hid0 in H1. fold s in H1, H2, Hc. fold m in H1.
-  assert (Hids : local_id s = mkId o 0).
+  assert (Hids : local_id s = mkId o 0 0).
   { assert (Ho : forall evs s, own (run s evs) = own s).
     { induction evs0 as [| ev r IH]; intros s0; simpl; auto. rewrite IH. apply step_own. }
     unfold local_id, s. rewrite Ho. reflexivity. }
@@ -1072,7 +1079,44 @@ Proof.
     exists e. split; [exact He |]. rewrite Hs, next_seq_nowrap; auto. split; lia.
   - intros Hp. simpl. unfold service. rewrite Hp.
     destruct (regen_lookup_local (mkS (ifs s) (own s) (db s) (counter s) false)) as (e & He & Hs & _).
-    assert (Hl : local_id (mkS (ifs s) (own s) (db s) (counter s) false) = mkId o 0) by exact Hids.
+    assert (Hl : local_id (mkS (ifs s) (own s) (db s) (counter s) false) = mkId o 0 0) by exact Hids.
     rewrite Hl in He. exists e. split; [exact He |]. simpl in Hs.
     rewrite Hs, next_seq_nowrap; auto. split; lia.
+Qed.
+
+(* ------------------------------------------------------------------ the id order is a total order on FULL ids *)
+
+Lemma id_leb_antisym : forall a b, id_leb a b = true -> id_leb b a = true -> a = b.
+Proof.
+  intros [sa pa na] [sb pb nb]. unfold id_leb. simpl. intros H1 H2.
+  destruct (sa <? sb) eqn:E1; destruct (sb <? sa) eqn:E2;
+    try (apply N.ltb_lt in E1); try (apply N.ltb_lt in E2);
+    try (apply N.ltb_ge in E1); try (apply N.ltb_ge in E2); try lia.
+  - simpl in H2. apply andb_true_iff in H2. destruct H2 as [H2 _]. apply N.eqb_eq in H2. lia.
+  - simpl in H1. apply andb_true_iff in H1. destruct H1 as [H1 _]. apply N.eqb_eq in H1. lia.
+  - simpl in *. apply andb_true_iff in H1. destruct H1 as [Hs H1]. apply N.eqb_eq in Hs. subst sb.
+    apply andb_true_iff in H2. destruct H2 as [_ H2].
+    destruct (pa <? pb) eqn:E3; destruct (pb <? pa) eqn:E4;
+      try (apply N.ltb_lt in E3); try (apply N.ltb_lt in E4);
+      try (apply N.ltb_ge in E3); try (apply N.ltb_ge in E4); try lia.
+    + simpl in H2. apply andb_true_iff in H2. destruct H2 as [H2 _]. apply N.eqb_eq in H2. lia.
+    + simpl in H1. apply andb_true_iff in H1. destruct H1 as [H1 _]. apply N.eqb_eq in H1. lia.
+    + simpl in *. apply andb_true_iff in H1. destruct H1 as [Hp H1]. apply N.eqb_eq in Hp. subst pb.
+      apply andb_true_iff in H2. destruct H2 as [_ H2].
+      apply N.leb_le in H1. apply N.leb_le in H2. assert (na = nb) by lia. subst. reflexivity.
+Qed.
+
+Lemma id_leb_total : forall a b, id_leb a b = true \/ id_leb b a = true.
+Proof.
+  intros [sa pa na] [sb pb nb]. unfold id_leb. simpl.
+  destruct (sa <? sb) eqn:E1; [left; reflexivity |].
+  destruct (sb <? sa) eqn:E2; [right; reflexivity |].
+  apply N.ltb_ge in E1. apply N.ltb_ge in E2. assert (sa = sb) by lia. subst sb.
+  rewrite N.eqb_refl. simpl.
+  destruct (pa <? pb) eqn:E3; [left; reflexivity |].
+  destruct (pb <? pa) eqn:E4; [right; reflexivity |].
+  apply N.ltb_ge in E3. apply N.ltb_ge in E4. assert (pa = pb) by lia. subst pb.
+  rewrite N.eqb_refl. simpl.
+  destruct (na <=? nb) eqn:E5; [left; reflexivity |].
+  right. apply N.leb_gt in E5. apply N.leb_le. lia.
 Qed.
